@@ -150,4 +150,7 @@ def gen_oflags(rng, safe_fifo=True):
                     ("NOATIME", 0.1), ("CLOEXEC", 0.3), ("SYNC", 0.05), ("DSYNC", 0.05), ("NOCTTY", 0.1)):
         if rng.random() < p:
             fl |= O[name]
+    if fl & O["PATH"]:
+        # openat2 is strict: with O_PATH only O_DIRECTORY, O_NOFOLLOW and O_CLOEXEC are accepted
+        fl &= O["PATH"] | O["DIRECTORY"] | O["NOFOLLOW"] | O["CLOEXEC"]
     return fl
